@@ -141,63 +141,213 @@ def closure(index, fn, depth=3, only_private=True):
     return list(seen.values())
 
 
-def closure_nodes(index, fn, depth=3, only_private=True):
+def closure_nodes(index, fn, types=None, depth=3, only_private=True):
     for f in closure(index, fn, depth, only_private):
         for n in walk_no_nested(f.node):
-            yield f, n
+            if types is None or isinstance(n, types):
+                yield f, n
 
 
-def resolve_local(fn, expr, depth=0, index=None):
-    """Def-use normalisation of an expression: local names that have exactly one
-    plain assignment in `fn` are replaced by their right-hand side; with `index`,
-    calls of in-package helpers whose body is a single `return <expr>` are
-    replaced by that expression (parameters substituted)."""
-    import copy
-    if depth > 6 or expr is None:
-        return expr
+def closure_src(index, fn, depth=3, only_private=True):
+    """Concatenated source text of the closure (for presence-of-construct questions)."""
+    return "\n".join(src(f.node) for f in closure(index, fn, depth, only_private))
+
+
+def _local_defs(fn):
+    """name -> (value expression, tuple position or None) for locals with exactly one binding."""
     single, counts = {}, {}
+
+    def bump(name, k=2):
+        counts[name] = counts.get(name, 0) + k
     for n in walk_no_nested(fn.node):
-        if isinstance(n, ast.Assign) and len(n.targets) == 1 and isinstance(n.targets[0], ast.Name):
-            counts[n.targets[0].id] = counts.get(n.targets[0].id, 0) + 1
-            single[n.targets[0].id] = n.value
-        elif isinstance(n, ast.Assign):
+        if isinstance(n, ast.Assign):
             for t in n.targets:
-                for tt in (t.elts if isinstance(t, (ast.Tuple, ast.List)) else [t]):
-                    if isinstance(tt, ast.Name):
-                        counts[tt.id] = counts.get(tt.id, 0) + 2
+                if isinstance(t, ast.Name):
+                    bump(t.id, 1 if len(n.targets) == 1 else 2)
+                    single[t.id] = (n.value, None)
+                elif isinstance(t, (ast.Tuple, ast.List)):
+                    for i, tt in enumerate(t.elts):
+                        if isinstance(tt, ast.Name) and len(n.targets) == 1:
+                            bump(tt.id, 1)
+                            single[tt.id] = (n.value, i)
+                        else:
+                            for x in ast.walk(tt):
+                                if isinstance(x, ast.Name):
+                                    bump(x.id)
+        elif isinstance(n, ast.AnnAssign) and isinstance(n.target, ast.Name) and n.value is not None:
+            bump(n.target.id, 1)
+            single[n.target.id] = (n.value, None)
         elif isinstance(n, ast.AugAssign) and isinstance(n.target, ast.Name):
-            counts[n.target.id] = counts.get(n.target.id, 0) + 2
+            bump(n.target.id)
         elif isinstance(n, (ast.For, ast.comprehension)):
             for tt in ast.walk(n.target):
                 if isinstance(tt, ast.Name):
-                    counts[tt.id] = counts.get(tt.id, 0) + 2
+                    bump(tt.id)
         elif isinstance(n, ast.NamedExpr) and isinstance(n.target, ast.Name):
-            counts[n.target.id] = counts.get(n.target.id, 0) + 2
+            bump(n.target.id)
+        elif isinstance(n, (ast.With,)):
+            for it in n.items:
+                if it.optional_vars is not None:
+                    for x in ast.walk(it.optional_vars):
+                        if isinstance(x, ast.Name):
+                            bump(x.id)
+        elif isinstance(n, ast.ExceptHandler) and n.name:
+            bump(n.name)
     params = set(a.arg for a in fn.node.args.posonlyargs + fn.node.args.args + fn.node.args.kwonlyargs)
+    if fn.node.args.vararg:
+        params.add(fn.node.args.vararg.arg)
+    if fn.node.args.kwarg:
+        params.add(fn.node.args.kwarg.arg)
+    return {k: v for k, v in single.items() if counts.get(k) == 1 and k not in params}
+
+
+def _straight_line_return(c):
+    """The returned expression of a helper whose body is assignments to fresh names followed by
+    one return (no branching), else None."""
+    body = docstring_stripped(c.node.body)
+    if not body or not isinstance(body[-1], ast.Return) or body[-1].value is None:
+        return None
+    for st in body[:-1]:
+        if not isinstance(st, (ast.Assign, ast.AnnAssign)):
+            return None
+    return body[-1].value
+
+
+def resolve_local(fn, expr, depth=0, index=None, keep=()):
+    """Def-use normalisation of an expression: local names with exactly one binding in `fn` are
+    replaced by their right-hand side (tuple unpacking picks the element); with `index`, calls
+    of in-package helpers with a straight-line body are replaced by their returned expression
+    (parameters substituted).  Purely syntactic; used to make rules insensitive to naming of
+    intermediates and to helper extraction."""
+    import copy
+    if depth > 8 or expr is None:
+        return expr
+    defs = {k: v for k, v in _local_defs(fn).items() if k not in keep}
 
     class Sub(ast.NodeTransformer):
         def visit_Name(self, node):
-            if isinstance(node.ctx, ast.Load) and counts.get(node.id) == 1 and node.id not in params:
-                return resolve_local(fn, single[node.id], depth + 1, index)
+            if isinstance(node.ctx, ast.Load) and node.id in defs:
+                value, pos = defs[node.id]
+                v = resolve_local(fn, value, depth + 1, index, keep)
+                if pos is None:
+                    return v
+                if isinstance(v, (ast.Tuple, ast.List)) and pos < len(v.elts) \
+                        and not any(isinstance(e, ast.Starred) for e in v.elts):
+                    return v.elts[pos]
+                return ast.Subscript(value=v, slice=ast.Constant(pos), ctx=ast.Load())
             return node
 
         def visit_Call(self, node):
             self.generic_visit(node)
-            if index is not None and hasattr(fn, "module"):
-                c = resolve_callee(index, fn, node)
-                if c is not None:
-                    body = docstring_stripped(c.node.body)
-                    if len(body) == 1 and isinstance(body[0], ast.Return) and body[0].value is not None \
-                            and not node.keywords and not c.node.args.vararg:
-                        ps = [a.arg for a in c.node.args.posonlyargs + c.node.args.args]
-                        if c.kind in ("method", "classmethod", "property"):
-                            ps = ps[1:]
-                        if len(ps) == len(node.args):
-                            m = dict(zip(ps, node.args))
+            if index is None or not hasattr(fn, "module"):
+                return node
+            c = resolve_callee(index, fn, node)
+            if c is None or c is fn:
+                return node
+            ret = _straight_line_return(c)
+            if ret is None or c.node.args.vararg or c.node.args.kwarg:
+                return node
+            ps = [a.arg for a in c.node.args.posonlyargs + c.node.args.args]
+            if c.kind in ("method", "classmethod", "property"):
+                ps = ps[1:]
+            m = dict(zip(ps, node.args))
+            if len(node.args) > len(ps):
+                return node
+            for kw in node.keywords:
+                if kw.arg is None or kw.arg not in ps or kw.arg in m:
+                    return node
+                m[kw.arg] = kw.value
+            nd = len(c.node.args.defaults)
+            for a, d in zip(ps[len(ps) - nd:] if nd else [], c.node.args.defaults[-len(ps):] if nd else []):
+                m.setdefault(a, d)
+            if set(ps) - set(m):
+                return node
+            inner = resolve_local(c, ret, depth + 1, index)
 
-                            class P(ast.NodeTransformer):
-                                def visit_Name(self, n2):
-                                    return copy.deepcopy(m[n2.id]) if n2.id in m and isinstance(n2.ctx, ast.Load) else n2
-                            return P().visit(copy.deepcopy(body[0].value))
-            return node
-    return Sub().visit(copy.deepcopy(expr))
+            class P(ast.NodeTransformer):
+                def visit_Name(self, n2):
+                    return copy.deepcopy(m[n2.id]) if n2.id in m and isinstance(n2.ctx, ast.Load) else n2
+            return P().visit(copy.deepcopy(inner))
+    out = Sub().visit(copy.deepcopy(expr))
+    return ast.fix_missing_locations(out) if hasattr(out, "lineno") or True else out
+
+
+def template_holes(n):
+    """(literal text, [hole expressions]) of a string template written as an f-string,
+    a literal's .format(...) call or a literal % tuple; None for anything else."""
+    if isinstance(n, ast.JoinedStr):
+        return ("".join(v.value for v in n.values if isinstance(v, ast.Constant)),
+                [v.value for v in n.values if isinstance(v, ast.FormattedValue)])
+    if isinstance(n, ast.Call) and isinstance(n.func, ast.Attribute) and n.func.attr == "format" \
+            and isinstance(n.func.value, ast.Constant) and isinstance(n.func.value.value, str):
+        import string
+        lits, holes, auto = [], [], 0
+        try:
+            for lit_, field, _spec, _conv in string.Formatter().parse(n.func.value.value):
+                lits.append(lit_ or "")
+                if field is None:
+                    continue
+                if field == "":
+                    holes.append(n.args[auto]); auto += 1
+                elif field.isdigit():
+                    holes.append(n.args[int(field)])
+                else:
+                    k = kwarg(n, field)
+                    if k is None:
+                        return None
+                    holes.append(k)
+        except (IndexError, ValueError):
+            return None
+        return "".join(lits), holes
+    if isinstance(n, ast.BinOp) and isinstance(n.op, ast.Mod) and isinstance(n.left, ast.Constant) \
+            and isinstance(n.left.value, str):
+        import re as _re
+        holes = list(n.right.elts) if isinstance(n.right, ast.Tuple) else [n.right]
+        return _re.sub(r"%[-0-9.]*[sdif]", "", n.left.value), holes
+    return None
+
+
+def enclosing_conjuncts(fn, target, index=None):
+    """Source texts of the conditions known TRUE at statement `target` because of enclosing
+    `if` statements (conjunctions split; locals resolved): the dominating positive guards.
+    Conditions of else-branches are returned as 'not (...)'."""
+    res = None
+
+    def conj(test, positive):
+        if positive and isinstance(test, ast.BoolOp) and isinstance(test.op, ast.And):
+            out = []
+            for v in test.values:
+                out += conj(v, True)
+            return out
+        if not positive and isinstance(test, ast.BoolOp) and isinstance(test.op, ast.Or):
+            out = []
+            for v in test.values:
+                out += conj(v, False)
+            return out
+        if isinstance(test, ast.UnaryOp) and isinstance(test.op, ast.Not):
+            return conj(test.operand, not positive)
+        t = src(resolve_local(fn, test, index=index)).replace('"', "'")
+        return [t if positive else f"not ({t})"]
+
+    def visit(body, guards):
+        nonlocal res
+        for st in body:
+            if st is target:
+                res = list(guards)
+                return True
+            if isinstance(st, ast.If):
+                if visit(st.body, guards + conj(st.test, True)):
+                    return True
+                if visit(st.orelse, guards + conj(st.test, False)):
+                    return True
+            else:
+                for blk in ("body", "orelse", "finalbody"):
+                    b = getattr(st, blk, None)
+                    if isinstance(b, list) and b and isinstance(b[0], ast.stmt) and visit(b, guards):
+                        return True
+                for h in getattr(st, "handlers", []) or []:
+                    if visit(h.body, guards):
+                        return True
+        return False
+    visit(fn.node.body, [])
+    return res
